@@ -473,8 +473,11 @@ pub(crate) fn load_defs(ctx: &mut Context, defs: Defs) -> Vec<String> {
             resolver.docs.insert(id.clone(), doc);
         }
         if let Some(category) = category {
-            // for now, only allow units to have categories.
-            if id.namespace == Namespace::Unit {
+            // for now, only allow units to have categories. A long
+            // prefix is also a unit.
+            if id.namespace == Namespace::Unit
+                || matches!(*def, Def::Prefix { is_long: true, .. })
+            {
                 resolver.categories.insert(id.clone(), category);
             }
         }
@@ -607,6 +610,13 @@ pub(crate) fn load_defs(ctx: &mut Context, defs: Defs) -> Vec<String> {
                         ctx.registry
                             .units
                             .insert(name.clone(), Number::new(value.clone()));
+                        // Like other units it has a definition, which
+                        // tells whether it is an alias (`deka- deca`).
+                        if !ctx.registry.definitions.contains_key(&name) {
+                            ctx.registry
+                                .definitions
+                                .insert(name.clone(), expr.0.clone());
+                        }
                     }
                 }
                 Err(err) => resolver.errors.push(format!("Prefix {name}: {err}")),
@@ -770,7 +780,13 @@ pub(crate) fn load_defs(ctx: &mut Context, defs: Defs) -> Vec<String> {
         }
     }
 
-    for (id, category_name) in resolver.categories {
+    // A long prefix that shares its name with a unit (`double`) is listed
+    // where the unit is.
+    let (prefix_categories, unit_categories): (Vec<_>, Vec<_>) = resolver
+        .categories
+        .into_iter()
+        .partition(|(id, _)| id.namespace == Namespace::Prefix);
+    for (id, category_name) in unit_categories {
         let name = id.name.to_string();
         if let Some(existing_category) = ctx
             .registry
@@ -781,6 +797,12 @@ pub(crate) fn load_defs(ctx: &mut Context, defs: Defs) -> Vec<String> {
                 "Category conflict: {id} is in both {category_name} and {existing_category}"
             ));
         }
+    }
+    for (id, category_name) in prefix_categories {
+        ctx.registry
+            .categories
+            .entry(id.name.to_string())
+            .or_insert(category_name);
     }
 
     resolver.errors
